@@ -112,6 +112,11 @@ def templates(tier="quick"):
     T += _mk("rspfile_empty", [v2, v], tags=["rspfile"], depth=d)
     T += _mk("rspfile_becomes_empty", [v, v2], tags=["rspfile"], depth=d)
 
+    # T13c the response file sits next to an output in a directory that does not exist yet (ninja creates output directories;
+    # no depfile of the same rule that would have it created earlier)
+    v = Variant("v0", [Stmt("o2/deep/lib", ex=["s"], rsp=("o2/deep/lib.rsp", "s")), Stmt("exe", ex=["o2/deep/lib"])])
+    T += _mk("rspfile_in_new_directory", [v], tags=["rspfile", "mkdirs"], depth=2, js=(1, 2), max_fault_stmts=1, edits_during=False)
+
     # T13d the content is written as $in_newline / $in and the inputs have names the shell would split or expand: the
     # file holds one quoted word per input (the quoting of $in, newline separated)
     def shq(n):
